@@ -154,6 +154,13 @@ def initial_state(eng, key, contract, kinds):
         if ktxt.startswith("const:"):
             st = st.setvar(name, eval(ktxt[6:], {}))     # a python literal fixed by the contract case
             continue
+        if ktxt == "func":
+            # a sibling nested function of the same enclosing function (closure kind): bound to its real definition, its own free
+            # variables resolve to the closure parameters of this run
+            from .interp import FuncVal
+            sib_qual = ".".join(qual.split(".")[:-1] + [name])
+            st = st.setvar(name, FuncVal(mod.func(sib_qual), 0, mod, sib_qual))
+            continue
         k = parse_kind(ktxt)
         tree = tfresh(k, "p_" + name)
         v = SV(k, tree)
@@ -181,6 +188,7 @@ def verify_function(eng, key, case_kinds=None, label_suffix=""):
     # definitional axioms are scoped to the function under verification (they talk about that function's fresh symbols only);
     # without the scope, shared symbols such as the cardinality function would drag every other function's definitions into a query
     eng.__dict__.setdefault("def_marks", []).append(("%s/%s%s" % (eng.cset.property, qual, label_suffix), len(eng.defs)))
+    eng.nonlocals = {}          # per-run state (frame ids restart at 0 for every function)
     st, mod, node = initial_state(eng, key, c, case_kinds or {})
     check_shape(node, c, key)
     eng.cur_key = key
@@ -289,9 +297,36 @@ def collect_symbols(e, cache):
     return out
 
 
+def _alternates(e, cache):
+    key = ("alt", e.get_id())
+    if key in cache:
+        return cache[key][1]
+    found = False
+    stack = [(e, None)]
+    seen = set()
+    while stack and not found:
+        t, outer = stack.pop()
+        if (t.get_id(), outer) in seen:
+            continue
+        seen.add((t.get_id(), outer))
+        if z3.is_quantifier(t):
+            kind = "A" if t.is_forall() else "E"
+            if outer is not None and outer != kind:
+                found = True
+                break
+            stack.append((t.body(), kind))
+        elif z3.is_app(t):
+            stack.extend((c, outer) for c in t.children())
+    cache[key] = (e, found)
+    return found
+
+
 class Discharger:
-    def __init__(self, eng, workdir=None, timeout_s=20, jobs=12, solvers=None):
+    def __init__(self, eng, workdir=None, timeout_s=20, jobs=12, solvers=None, prefer=None):
         self.eng = eng
+        # obligation name -> strategy that discharged it on the recorded baseline run ("z3old", "cvc5/slice1", ...): tried first.
+        # Only an ordering hint: whatever it says, an obligation counts as discharged only when a solver answers unsat now
+        self.prefer = prefer or {}
         self.timeout_s = timeout_s
         self.jobs = jobs
         self.workdir = workdir or tempfile.mkdtemp(prefix="pyvc_")
@@ -323,9 +358,37 @@ class Discharger:
             self._bg[prefix] = [(a, collect_symbols(a, self.cache)) for a in bg]
         return self._bg[prefix]
 
-    def smt2(self, ob):
+    def smt2(self, ob, depth=None):
         s = z3.Solver()
         forms = list(ob.pc) + [z3.Not(ob.goal)]
+        if depth == "focus":
+            forms = list(ob.focus) + [z3.Not(ob.goal)]
+        elif depth == "sub":
+            # the hypotheses that talk about nothing but what the goal talks about
+            def link0(f):
+                return {x for x in collect_symbols(f, self.cache) if not x.startswith("nref")}
+            S0 = link0(ob.goal)
+            forms = [f for f in ob.pc if link0(f) <= S0] + [z3.Not(ob.goal)]
+        elif depth == "ae":
+            # drop the hypotheses with a quantifier alternation (an exists under a forall, or the reverse): they are the usual source of
+            # runaway instantiation; sound for the same reason as the depth slices
+            forms = [f for f in ob.pc if not _alternates(f, self.cache)] + [z3.Not(ob.goal)]
+        elif depth is not None:
+            # hypothesis slicing (sound: dropping hypotheses can only make the refutation harder): keep the hypotheses within `depth`
+            # rounds of shared symbols from the goal; allocation counters connect everything and do not count as a link
+            def link(f):
+                return {x for x in collect_symbols(f, self.cache) if not x.startswith("nref")}
+            S = link(ob.goal)
+            keep, rest = [], [(f, link(f)) for f in ob.pc]
+            for _ in range(depth):
+                new = [(f, fs) for f, fs in rest if fs & S]
+                if not new:
+                    break
+                rest = [(f, fs) for f, fs in rest if not (fs & S)]
+                keep.extend(f for f, _ in new)
+                for _, fs in new:
+                    S |= fs
+            forms = keep + [z3.Not(ob.goal)]
         syms = set()
         for f in forms:
             syms |= collect_symbols(f, self.cache)
@@ -409,16 +472,35 @@ class Discharger:
             g = ob.goal
         if ob.expect == "unsat" and z3.is_true(g):
             return (ob, None)
+        if ob.expect == "unsat" and any(ob.goal.eq(f) for f in ob.pc):
+            return (ob, None)          # the goal is literally one of the hypotheses (e.g. an invariant restated as the last staged assert)
         text = self.smt2(ob)
         h = hashlib.sha1((ob.name + text).encode()).hexdigest()[:16]
         path = os.path.join(self.workdir, "%s.smt2" % h)
         with open(path, "w") as fh:
             fh.write(text)
+        pref = self.prefer.get(ob.name)
+        if pref and ob.expect == "unsat":
+            which, _, d = pref.partition("/slice")
+            ppath = path
+            if d and not (d == "focus" and not getattr(ob, "focus", None)):
+                depth = int(d) if d.isdigit() else d
+                ppath = os.path.join(self.workdir, "%s.p%s.smt2" % (h, d))
+                with open(ppath, "w") as fh:
+                    fh.write(self.smt2(ob, depth=depth))
+            if which in self.solvers:
+                ob._pref = (which, ppath, pref)
         return (ob, path)
 
     def solve(self, item):
         ob, path = item
         t0 = time.time()
+        if path is not None and getattr(ob, "_pref", None):
+            which, ppath, pref = ob._pref
+            res, dt = self.run_solver(which, ppath, self.timeout_s)
+            if res == "unsat":
+                return dict(name=ob.name, kind=ob.kind, status="discharged", by=pref, time=round(time.time() - t0, 3),
+                            tried={"%s@%ds(first)" % (pref, self.timeout_s): (res, round(dt, 3))}, file=path, trail=list(ob.trail)[-12:])
         if path is None:
             return dict(name=ob.name, kind=ob.kind, status="discharged", by="syntactic", time=0.0, tried={}, file=None,
                         trail=list(ob.trail)[-12:])
@@ -450,4 +532,37 @@ class Discharger:
     def discharge_all(self, obs):
         items = [self.prepare(ob) for ob in obs]          # z3py is not thread-safe: SMT text is produced serially
         with concurrent.futures.ThreadPoolExecutor(max_workers=self.jobs) as ex:
-            return list(ex.map(self.solve, items))
+            results = list(ex.map(self.solve, items))
+        # second pass for what every solver left open: the same obligation with sliced hypotheses (depth 1, then 2).  The full
+        # queries carry every heap-typing and frame fact of the path; on some of them all solvers wander although a handful of
+        # hypotheses suffices, and which ones is a matter of solver luck -- the sliced query removes the luck
+        for depth in (() if getattr(self, "no_slices", False) else ("focus", "sub", 1, 2, "ae")):
+            todo = [k for k, r in enumerate(results) if r["status"] == "undischarged" and items[k][0].expect != "sat"
+                    and (depth != "focus" or getattr(items[k][0], "focus", None))]
+            if not todo:
+                break
+            sliced = []
+            for k in todo:
+                ob = items[k][0]
+                text = self.smt2(ob, depth=depth)
+                h = hashlib.sha1((ob.name + text).encode()).hexdigest()[:16]
+                path = os.path.join(self.workdir, "%s.s%s.smt2" % (h, depth))
+                with open(path, "w") as fh:
+                    fh.write(text)
+                sliced.append((k, path))
+
+            def solve_sliced(kp):
+                k, path = kp
+                T = self.timeout_s
+                for which, budget in (("z3new", max(2, T // 2)), ("cvc5", max(3, T // 2)), ("z3old", max(2, T // 2))):
+                    if which not in self.solvers:
+                        continue
+                    res, dt = self.run_solver(which, path, budget)
+                    results[k]["tried"]["%s/slice%s@%ds" % (which, depth, budget)] = (res, round(dt, 3))
+                    results[k]["time"] = round(results[k]["time"] + dt, 3)
+                    if res == "unsat":
+                        results[k]["status"], results[k]["by"] = "discharged", "%s/slice%s" % (which, depth)
+                        return
+            with concurrent.futures.ThreadPoolExecutor(max_workers=self.jobs) as ex:
+                list(ex.map(solve_sliced, sliced))
+        return results
